@@ -1,2 +1,3 @@
+@classmethod
 def spec(cls, loc, scale, generator=None):
     return torch.exp(Normal.sample(loc, scale, generator=generator))
